@@ -128,7 +128,7 @@ EXPORT char *_stpncpy_s_chk(char *restrict dest, rsize_t dmax,
     }
     if (unlikely(dmax == 0)) {
         invoke_safe_str_constraint_handler("stpncpy_s: dmax is 0", (void *)dest,
-                                           ESNULLP);
+                                           ESZEROL);
         *errp = RCNEGATE(ESZEROL);
         return NULL;
     }
